@@ -212,15 +212,21 @@ func (obj *Flavor) inheritFlavor(cf *Flavor) {
 		}
 	}
 	for k, im := range cf.methods {
-		m := obj.methods[k]
-		if m == nil {
-			m = &slip.Method{
-				Name: k,
-				Doc:  im.Doc,
-			}
-			obj.methods[k] = m
-		}
 		for _, ic := range im.Combinations {
+			if ic.From == &vanilla && cf != &vanilla {
+				// The vanilla-flavor is last in the precedence order. Its
+				// combinations are added when it is inherited itself and not
+				// when found in the method table of another flavor.
+				continue
+			}
+			m := obj.methods[k]
+			if m == nil {
+				m = &slip.Method{
+					Name: k,
+					Doc:  im.Doc,
+				}
+				obj.methods[k] = m
+			}
 			if !m.HasMethodFromClass(ic.From.Name()) {
 				m.Combinations = append(m.Combinations, ic)
 			}
